@@ -36,6 +36,7 @@ type stepObs struct {
 type savedSess struct {
 	from   int
 	goCS   *tls.ClientSessionState
+	goTkt  []byte // the ticket as issued (NewResumptionState overwrites the ticket inside the shared SessionState)
 	raw    *rawSession
 	master []byte // server-side master secret of the originating connection
 	vers   uint16
@@ -161,13 +162,14 @@ func resumeOne(c *resCase) []interface{} {
 			if st.Offer == "saved" && saved != nil {
 				so.SessFrom = saved.from
 				if st.Cl.Kind == "go" && saved.goCS != nil {
-					ticket, state, err := saved.goCS.ResumptionState()
+					_, state, err := saved.goCS.ResumptionState()
 					if err != nil || state == nil {
 						so.Note = fmt.Sprintf("ResumptionState: %v", err)
 					} else {
-						mt, note := tamperTicket(ticket, st.Tamper, saved)
+						mt, note := tamperTicket(saved.goTkt, st.Tamper, saved)
 						so.Note = note
-						cs, err := tls.NewResumptionState(mt, state)
+						cp := *state // private copy: the saved session keeps the ticket as issued
+						cs, err := tls.NewResumptionState(mt, &cp)
 						if err != nil {
 							so.Note += fmt.Sprintf(" NewResumptionState: %v", err)
 						} else {
@@ -206,6 +208,11 @@ func resumeOne(c *resCase) []interface{} {
 					vers: vers(r.obs.SVers), suite: suiteID[r.obs.SSuite]}
 				if r.obs.SPeer > 0 {
 					ns.certs = [][]byte{keys.clientLeafDER}
+				}
+				if r.goSaved != nil {
+					if t, _, err := r.goSaved.ResumptionState(); err == nil {
+						ns.goTkt = append([]byte(nil), t...)
+					}
 				}
 				saved = ns
 			}
